@@ -38,6 +38,10 @@ def case_strategy(draw, tier="quick"):
     return {"spec": spec, "events": [list(e) for e in events], "mode": mode}
 
 
+class BlockingEmitStuck(Exception):
+    pass
+
+
 def real_log(log):
     out = []
     for ev in log.events:
@@ -74,11 +78,26 @@ def run_real(case):
     elif case["mode"] == "thread":
         # blocking emits against the real background-thread loop (sync())
         b = specs.build(spec, log, asynchronous="thread")
-        for idx, e in enumerate(case["events"]):
-            if e[0] == "e":
-                b.nodes[specs.entry_ids(spec)[e[1]]].emit(mk(e[2], idx))
-            else:
-                b.nodes[e[1]].flush()
+        box = {}
+
+        def emits():
+            try:
+                for idx, e in enumerate(case["events"]):
+                    box["at"] = idx
+                    if e[0] == "e":
+                        b.nodes[specs.entry_ids(spec)[e[1]]].emit(mk(e[2], idx))
+                    else:
+                        b.nodes[e[1]].flush()
+            except BaseException as ex:  # noqa: BLE001  (re-raised on the main thread)
+                box["exc"] = ex
+        import threading
+        th = threading.Thread(target=emits, daemon=True)
+        th.start()
+        th.join(60)     # consumers are synchronous: a blocking emit takes milliseconds
+        if th.is_alive():
+            raise BlockingEmitStuck(box.get("at"))
+        if "exc" in box:
+            raise box["exc"]
         for s_ in b.nodes:
             if type(s_).__name__ == "sink":
                 s_.destroy()
@@ -133,7 +152,14 @@ def compare(spec, real, model, pid=ID):
 
 def execute(case):
     spec = case["spec"]
-    real, not_done, errs = run_real(case)
+    try:
+        real, not_done, errs = run_real(case)
+    except BlockingEmitStuck as e:
+        # (elapsed real time enters this verdict: 60 s for work that takes milliseconds; the
+        # process keeps a blocked thread and is not used further)
+        return Result([(ID + ":threaded:blocking-emit-never-returns",
+                        "event %s of %s: emit() with synchronous consumers has not returned after "
+                        "60 s" % (e.args[0], case["events"]))], nontrivial=True, abort=True)
     model = run_model(case)
     v = compare(spec, real, model)
     if not_done and not any(nd['k'] == 'zip' for nd in spec['nodes']):
